@@ -5,6 +5,7 @@ import (
 	"go/token"
 	"go/types"
 	"strconv"
+	"strings"
 )
 
 // R-STACKIDX (C02): every index into the VM's value stack is below its length.
@@ -73,6 +74,55 @@ type sxCtx struct {
 	obls  int
 	fails []string
 	undec []string
+	exits []Lin // p.sp at each exit, relative to its value on entry
+}
+
+// stackHelperDelta: the net change of p.sp made by a stack helper, the same on every exit, as a linear form
+// over its integer parameters (arg0, arg1, ...). Uses the symbolic interpretation of R-STACKIDX, which follows
+// local copies of p.sp, compound assignments and counted loops.
+func stackHelperDelta(c *Ctx, info *types.Info, fd *ast.FuncDecl) (Lin, string) {
+	if fd.Recv == nil || len(fd.Recv.List) != 1 || len(fd.Recv.List[0].Names) != 1 {
+		return Lin{}, "no named receiver"
+	}
+	x := &sxCtx{c: c, info: info, recv: fd.Recv.List[0].Names[0].Name, fn: declName(fd)}
+	fresh := 0
+	s0 := &sxState{env: map[string]Lin{}, spNow: linAtom("SP"), lenNow: linAtom("LEN"), fresh: &fresh}
+	s0.facts = append(s0.facts, sxFact{linAtom("SP").Sub(linAtom("LEN"))})
+	subst := map[string]Lin{}
+	i := 0
+	for _, f := range fd.Type.Params.List {
+		for _, nm := range f.Names {
+			if b, ok := info.TypeOf(f.Type).Underlying().(*types.Basic); ok && b.Info()&types.IsInteger != 0 {
+				s0.env[nm.Name] = linAtom("P_" + nm.Name)
+				s0.facts = append(s0.facts, sxFact{linAtom("P_" + nm.Name).Scale(-1)})
+				subst["P_"+nm.Name] = linAtom("arg" + itoa(int64(i)))
+			}
+			i++
+		}
+	}
+	out := x.run([]*sxState{s0}, fd.Body.List)
+	for _, s := range out {
+		x.exit(s, fd.Body.Rbrace)
+	}
+	if len(x.undec) > 0 {
+		return Lin{}, joinStrs(x.undec)
+	}
+	if len(x.exits) == 0 {
+		return Lin{}, "no exit"
+	}
+	d := x.exits[0]
+	for _, e := range x.exits[1:] {
+		if !e.Eq(d) {
+			return Lin{}, "p.sp changes by " + d.String() + " on one exit and by " + e.String() + " on another"
+		}
+	}
+	d = d.Subst(subst, nil)
+	for atom := range d.T {
+		if !strings.HasPrefix(atom, "arg") {
+			return Lin{}, "the change of p.sp (" + d.String() + ") is not a linear form over the helper's parameters"
+		}
+	}
+	return d, ""
 }
 
 func (x *sxCtx) isStack(e ast.Expr) bool { return isSel(e, x.recv, "stack") }
@@ -378,6 +428,7 @@ func (x *sxCtx) countedLoop(s *sxState, v *ast.ForStmt) (Lin, bool) {
 
 // exit: the invariant sp <= len holds again
 func (x *sxCtx) exit(s *sxState, pos token.Pos) {
+	x.exits = append(x.exits, s.spNow.Sub(linAtom("SP")))
 	x.obls++
 	if !s.implies(s.spNow.Sub(s.lenNow)) {
 		x.fails = append(x.fails, x.c.relPos(pos)+": on exit cannot show p.sp <= len(p.stack): "+s.spNow.Sub(s.lenNow).String()+" <= 0")
